@@ -11,7 +11,7 @@ from typing import Any, Callable
 from vf import common
 
 
-def bfs(expand: Callable[[list], list], init_key: Any, max_depth: int, max_states: int = 0, deadline: float = 0.0) -> dict:
+def bfs(expand: Callable[[list], list], init_key: Any, max_depth: int, max_states: int = 0, deadline: float = 0.0, init_hist: list | None = None) -> dict:
     import multiprocessing
     import os
 
@@ -20,7 +20,7 @@ def bfs(expand: Callable[[list], list], init_key: Any, max_depth: int, max_state
     procs = int(os.environ.get("VERIF_PROCS", "0") or 0) or min(16, os.cpu_count() or 1)
     pool = multiprocessing.get_context("fork").Pool(procs) if procs > 1 else None  # one pool for the whole search
     try:
-        return _bfs(pool, expand, init_key, max_depth, max_states, deadline)
+        return _bfs(pool, expand, init_key, max_depth, max_states, deadline, list(init_hist or []))
     finally:
         if pool is not None:
             pool.terminate()
@@ -41,9 +41,9 @@ def _expand_chunk(ch):
         return ("harness", f"worker crashed: {e!r}\n{traceback.format_exc()}")
 
 
-def _bfs(pool, expand, init_key, max_depth, max_states, deadline) -> dict:
-    seen = {init_key: []}
-    frontier: list[list] = [[]]
+def _bfs(pool, expand, init_key, max_depth, max_states, deadline, init_hist) -> dict:
+    seen = {init_key: init_hist}
+    frontier: list[list] = [init_hist]
     transitions = 0
     viols: dict = {}
     depth = 0
